@@ -1,0 +1,16 @@
+//go:build verif
+
+// Contracts for the transaction-pool helpers of the RPC actor (C36), read by /verif/gocv.
+package actor
+
+// The set of permitted sender addresses is rebuilt from the consensus members of the current view: entries of an
+// earlier view do not survive a refresh, and a pool entry that is not a consensus member (candidate, quitting,
+// blacklisted) contributes neither its own address nor its key to the operator address.
+//@ func UpdatePermittedAddrMap
+//@   property C36
+//@   mode abstract
+//@   requires !isnil(permittedAddrMap)
+//@   modifies *
+//@   assert[c36-no-stale-entries] after loop 1 : forall a common.Address :: !has(permittedAddrMap, a)
+//@   assert[c36-only-consensus-members] before "permittedAddrMap[types.AddressFromPubKey(pk)] = true" : item != nil && item.Status == node_manager.ConsensusStatus
+//@   assert[c36-operator-of-consensus-members] before "publicKeys = append(publicKeys, pk)" : item != nil && item.Status == node_manager.ConsensusStatus
